@@ -179,6 +179,49 @@ def periodic_shape(cls, period, window, kinds, horizon=12):
     return sh
 
 
+def rconstraint_twice_shape(ename, variant):
+    """The same constraint class declared on two different workers with IDENTICAL parameters: the two
+    constraints must stay independent (auxiliaries named after the parameters must not be shared)."""
+    el = RELEMENTS[ename]
+    vtag = ",".join(f"{k}={v}" for k, v in sorted(variant.items())) or "-"
+    name = f"{ename}/{vtag}/declared_on_two_workers_with_the_same_parameters"
+
+    def build(P):
+        pb, hv = new_problem(P, True)
+        n = max(1, el.min_tasks)
+        ta = [make_task(P, f"A{i}", "fixed") for i in range(n)]
+        tb = [make_task(P, f"B{i}", "fixed") for i in range(n)]
+        w, v = ps.Worker(name="W"), ps.Worker(name="V")
+        for t in ta:
+            t.obj.add_required_resource(w)
+        for t in tb:
+            t.obj.add_required_resource(v)
+        c1 = el.build(P, w, **variant)
+        pb.constraints["rc_w"] = pb.constraints.pop("rc")
+        c1.name = "rc_w"
+        c2 = el.build(P, v, **variant)
+        busy_w = [(t, w._busy_intervals[t.obj]) for t in ta]
+        busy_v = [(t, v._busy_intervals[t.obj]) for t in tb]
+        return Ctx(problem=pb, ta=ta, tb=tb, busy_w=busy_w, busy_v=busy_v, horizon=hv)
+
+    def obligations(ctx):
+        tis, H, P = ctx.ta + ctx.tb, ctx.problem._horizon, ctx.P
+        cl = [base_valid(tis, H, ctx.horizon)]
+        for busy, ts in ((ctx.busy_w, ctx.ta), (ctx.busy_v, ctx.tb)):
+            for t, (bs, be) in busy:
+                cl += [bs == t.s, be == t.e, t.e > t.s]
+            for (t1, (b1, e1)), (t2, (b2, e2)) in itertools.combinations(busy, 2):
+                cl.append(Or(e1 <= b2, e2 <= b1))
+            cl += [c for _, c in el.must(P, busy, ts, **variant)]
+        observables = [o for t in tis for o in t.observables()] + [H] + [x for _, iv in ctx.busy_w + ctx.busy_v for x in iv]
+        return [Ob(f"{PROP}/{name}/valid_schedule_admitted", "complete", valid=And(cl), observables=observables)]
+
+    sh = Shape(name, build, obligations)
+    sh.assumptions = lambda P: el.assume(P, **variant)
+    sh.grid_limit = 3
+    return sh
+
+
 def workers_rel_shape(cls, nworkers):
     name = f"{cls}/{nworkers}_common_workers"
 
@@ -359,6 +402,11 @@ def shapes(tier):
             klist = [("fixed", "fixed"), ("fixed", "var", "fixed")] if el.min_tasks >= 2 else [("fixed",), ("fixed", "var")]
             for kinds in (klist if thorough else klist[:2]):
                 out.append(rconstraint_shape(ename, variant, kinds))
+    for ename, el in RELEMENTS.items():
+        if "Periodically" in ename:
+            continue
+        for variant in (el.variants if thorough else el.variants[:2]):
+            out.append(rconstraint_twice_shape(ename, variant))
     for cls in ("ResourcePeriodicallyUnavailable", "ResourcePeriodicallyInterrupted"):
         for period in (3, 5):
             for window in ("none", "start", "end") + (("both",) if thorough else ()):
